@@ -284,6 +284,14 @@ class Run:
         with open(tmp, 'w') as f:
             json.dump(doc, f, indent=1, sort_keys=True, default=repr)
         os.replace(tmp, os.path.join(EVIDENCE_DIR, self.pid + '.json'))
+        # <id>.json is what the last run covered; a copy per tier is kept beside it so that a quick run does not
+        # erase the record of the last thorough one
+        by_tier = os.path.join(EVIDENCE_DIR, 'by-tier')
+        os.makedirs(by_tier, exist_ok=True)
+        tmp = os.path.join(by_tier, '%s.%s.json.tmp' % (self.pid, self.tier))
+        with open(tmp, 'w') as f:
+            json.dump(doc, f, indent=1, sort_keys=True, default=repr)
+        os.replace(tmp, os.path.join(by_tier, '%s.%s.json' % (self.pid, self.tier)))
 
 
 def validate_evidence(doc):
